@@ -27,7 +27,7 @@ Inductive Climb : N -> option rtree -> list item -> rtree -> list item -> Prop :
 | C_suf_out q lhs d i r :
     inside d q = false -> Climb q (Some lhs) (ISuffix d i :: r) lhs (ISuffix d i :: r)
 | C_open q b i r inner k r' t r'' :
-    Climb INF None r inner (IClose b k :: r') -> Climb q (Some (RGroup b i inner)) r' t r'' ->
+    Climb (blimit b) None r inner (IClose b k :: r') -> Climb q (Some (RGroup b i inner)) r' t r'' ->
     Climb q None (IOpen b i :: r) t r''
 | C_close q lhs b k r : Climb q (Some lhs) (IClose b k :: r) lhs (IClose b k :: r)
 | C_end q lhs : Climb q (Some lhs) [] lhs [].
@@ -68,7 +68,7 @@ Qed.
    bracket is the call [climb INF None] of the IOpen case, which must end at a closing
    bracket *)
 Definition flimit (f : frame) : option N :=
-  match f with FGroup _ _ _ => Some INF | _ => ref_rank (frame_def f) end.
+  match f with FGroup b _ _ => Some (blimit b) | _ => ref_rank (frame_def f) end.
 
 Definition frame_ranked (f : frame) : Prop := exists p, flimit f = Some p.
 
@@ -100,7 +100,8 @@ Fixpoint Unwind (fs : list frame) (acc : option rtree) (its : list item) (T : rt
 (* every operator of the list has a rank below the outermost limit *)
 Definition item_ranked (it : item) : Prop :=
   match it with
-  | IPrefix d _ | ISuffix d _ | IBinary d _ => exists p, ref_rank d = Some p /\ (p < INF)%N
+  | IPrefix d _ | ISuffix d _ => exists p, ref_rank d = Some p /\ (p < ROUND_LIMIT)%N
+  | IBinary d _ => exists p, ref_rank d = Some p /\ (p < INF)%N /\ (is_sep_def d = false -> (p < ROUND_LIMIT)%N)
   | IValue d _ => norm_atom d = d
   | _ => True
   end.
@@ -215,17 +216,22 @@ Proof.
     split; [apply C_close|]. split; [exists k; reflexivity|]. exact HU.
 Qed.
 
+Lemma RL_lt_INF : (ROUND_LIMIT < INF)%N.
+Proof. reflexivity. Qed.
+
 Lemma limit_inside d fs q :
-  (exists p, ref_rank d = Some p /\ (p < INF)%N) ->
+  (exists p, ref_rank d = Some p /\ (p < INF)%N /\ (top_round fs = true -> (p < ROUND_LIMIT)%N)) ->
   match fs with [] => True | f :: _ => stays_below d f = true end ->
   limit fs q -> inside d q = true.
 Proof.
-  intros (p & Hp & Lp) Hh Hl. destruct fs as [|f r]; simpl in Hl.
+  intros (p & Hp & Lp & Lr) Hh Hl. destruct fs as [|f r]; simpl in Hl.
   - subst q. eapply inside_INF; eauto.
   - destruct f; simpl in Hl, Hh.
     + unfold stays_below in Hh. simpl in Hh. rewrite Hl in Hh. exact Hh.
     + unfold stays_below in Hh. simpl in Hh. rewrite Hl in Hh. exact Hh.
-    + injection Hl as <-. eapply inside_INF; eauto.
+    + injection Hl as <-. destruct b; cbn [blimit].
+      * unfold inside. rewrite Hp. specialize (Lr eq_refl). apply N.ltb_lt in Lr. rewrite Lr. reflexivity.
+      * eapply inside_INF; eauto.
 Qed.
 
 Theorem spine_run_unwind : forall its n fs acc fs' t',
@@ -259,10 +265,12 @@ Proof.
       eapply (pop_unwind d); [|exact HF|exact Epop|].
       * intros q lhs Hq. apply C_suf_out. exact Hq.
       * eapply Unwind_head; [|exact IH]. intros q t0 r0 Hl Hc. apply C_suf_in; [|exact Hc].
-        eapply limit_inside; [exact Hit|eapply pop_head; exact Epop|exact Hl].
+        eapply limit_inside; [|eapply pop_head; exact Epop|exact Hl].
+        destruct Hit as (p0 & Hp0 & Hl0). exists p0. split; [exact Hp0|]. split; [|intros _; exact Hl0].
+        eapply N.lt_trans; [exact Hl0|exact RL_lt_INF].
     + (* binary *)
       destruct (ref_rank d) as [p|] eqn:Ep; [|discriminate].
-      destruct (pop d fs t) as [fs1 t1] eqn:Epop. injection Es as <- <-.
+      destruct (pop d fs t) as [fs1 t1] eqn:Epop. destruct (sep_blocked d fs1) eqn:Esb; [discriminate Es|]. injection Es as <- <-.
       pose proof (pop_ranked _ _ _ _ _ HF Epop) as HF1.
       assert (HF2 : Forall frame_ranked (FBin n d k t1 :: fs1)) by (constructor; [exists p; exact Ep|exact HF1]).
       specialize (IH HF2 H HG). cbn [option_map Unwind] in IH.
@@ -273,10 +281,12 @@ Proof.
       * intros q lhs Hq. apply C_bin_out. exact Hq.
       * eapply Unwind_head; [|exact HU]. intros q t0 r0 Hl Hc0.
         eapply C_bin_in; [|exact Hp'|exact Hc|exact Hc0].
-        eapply limit_inside; [exact Hit|eapply pop_head; exact Epop|exact Hl].
+        eapply limit_inside; [|eapply pop_head; exact Epop|exact Hl].
+        destruct Hit as (p0 & Hp0 & Hl0 & Hs0). exists p0. split; [exact Hp0|]. split; [exact Hl0|].
+        intros Htr. apply Hs0. unfold sep_blocked in Esb. rewrite Htr, andb_true_r in Esb. exact Esb.
     + (* opening bracket *)
       injection Es as <- <-.
-      assert (HF2 : Forall frame_ranked (FGroup b n k :: fs)) by (constructor; [exists INF; reflexivity|exact HF]).
+      assert (HF2 : Forall frame_ranked (FGroup b n k :: fs)) by (constructor; [exists (blimit b); reflexivity|exact HF]).
       specialize (IH HF2 H HG). cbn [option_map Unwind] in IH.
       destruct IH as (p' & rhs & its' & its'' & Hp' & Hc & Ha & HU). cbn [flimit] in Hp'. injection Hp' as <-.
       cbn [after_frame] in Ha. destruct Ha as [kc ->]. cbn [rplug] in HU.
